@@ -268,6 +268,8 @@ class Typer:
             base = ast.unparse(a.value)
             sl = a.slice
             elts = sl.elts if isinstance(sl, ast.Tuple) else [sl]
+            if base in ("Iterator", "Iterable", "Sequence", "Generator", "Set", "FrozenSet", "Collection", "set", "frozenset") and elts:
+                return ("seq", self.ann_type(elts[0]))
             if base in ("Tuple", "tuple", "List", "list"):
                 ts = [self.ann_type(e) for e in elts]
                 return ("seq", ts[0]) if len(set(map(str, ts))) == 1 else ("tup", tuple(ts))
@@ -291,6 +293,31 @@ class Typer:
         if q not in self._inf:
             self._inf[q] = Infer(self, fn).run()
         return self._inf[q]
+
+    def ret_type(self, fn):
+        """the annotated return type; when the annotation says nothing, the join of what the body returns / yields
+        (generators give a sequence) -- inferred once, recursion cut"""
+        t = self.ann_type(fn.node.returns)
+        if t != UNK and UNK not in str(t):
+            return t
+        cache = self.__dict__.setdefault("_ret", {})
+        q = fn.qname
+        if q in cache:
+            return cache[q] if cache[q] is not None else t
+        cache[q] = None                                  # in progress
+        got = UNK
+        try:
+            inf = self.of(fn)
+            rets = [x for x in getattr(inf, "returned", []) if x != UNK]
+            ys = [x for x in getattr(inf, "yielded", []) if x != UNK]
+            if ys and len({str(x) for x in ys}) == 1:
+                got = ("seq", ys[0])
+            elif rets and len({str(x) for x in rets}) == 1 and not getattr(inf, "yielded", []):
+                got = rets[0]
+        except RecursionError:
+            got = UNK
+        cache[q] = got if got != UNK else t
+        return cache[q]
 
     def all(self):
         for q, fn in self.m.funcs.items():
@@ -354,6 +381,7 @@ class Infer:
         self.env = {}
         self.calls = []
         self.record = False
+        self.returned, self.yielded = [], []
         a = fn.node.args
         params = a.posonlyargs + a.args + ([a.vararg] if a.vararg else []) + a.kwonlyargs
         for i, p in enumerate(params):
@@ -461,9 +489,45 @@ class Infer:
                 self.stmt(b)
         elif isinstance(st, ast.Return):
             if st.value is not None:
-                self.expr(st.value)
+                t = self.expr(st.value)
+                if self.record:
+                    self.returned.append(t)
         elif isinstance(st, ast.Expr):
-            self.expr(st.value)
+            t = self.expr(st.value)
+            if self.record and isinstance(st.value, ast.Yield):
+                self.yielded.append(t)
+            if self.record and isinstance(st.value, ast.YieldFrom):
+                self.yielded.append(elem(t))
+        elif isinstance(st, (ast.FunctionDef, ast.AsyncFunctionDef)):
+            # a closure: its body is typed in the environment of the enclosing function (its calls are calls of this
+            # function as far as reachability goes); the name stands for a function returning what the body returns
+            saved_env = dict(self.env)
+            saved_ret, saved_y = self.returned, self.yielded
+            self.returned, self.yielded = [], []
+            a = st.args
+            for p_ in a.posonlyargs + a.args + ([a.vararg] if a.vararg else []) + a.kwonlyargs:
+                self.env[p_.arg] = self.t.ann_type(p_.annotation)
+            rec = self.record
+            self.record_inner = True
+            for b in st.body:
+                self.stmt(b)
+            inner_r = [x for x in self.returned if x != UNK] if rec else []
+            inner_y = [x for x in self.yielded if x != UNK] if rec else []
+            if not rec:
+                # the types are wanted in every pass: collect them without recording calls twice
+                pass
+            rt = self.t.ann_type(st.returns)
+            if rt == UNK or UNK in str(rt):
+                if inner_y and len({str(x) for x in inner_y}) == 1:
+                    rt = ("seq", inner_y[0])
+                elif inner_r and len({str(x) for x in inner_r}) == 1:
+                    rt = inner_r[0]
+            self.returned, self.yielded = saved_ret, saved_y
+            keep = {k: v for k, v in self.env.items() if k not in {p_.arg for p_ in a.posonlyargs + a.args + a.kwonlyargs}}
+            self.env = saved_env
+            for k, v in keep.items():
+                self.env.setdefault(k, v)
+            self.env[st.name] = ("localfn", rt)
         elif isinstance(st, ast.Assert):
             self.expr(st.test)
         elif isinstance(st, ast.Raise):
@@ -488,7 +552,7 @@ class Infer:
             self.note(node, "dunder", cands)
             rts = {}
             for f in cands:
-                rt = OVERRIDE_RET.get(f.qname, self.t.ann_type(f.node.returns))
+                rt = OVERRIDE_RET.get(f.qname, self.t.ret_type(f))
                 rts[str(rt)] = rt
             rts.pop(UNK, None)
             return list(rts.values())[0] if len(rts) == 1 else UNK
@@ -544,7 +608,7 @@ class Infer:
             if props:
                 self.note(e, "getter", props)
                 for f in props:
-                    t = self.t.ann_type(f.node.returns)
+                    t = self.t.ret_type(f)
                     if t != UNK:
                         res.append(t)
             elif fns:
@@ -648,7 +712,19 @@ class Infer:
         return BOOL
 
     def e_Lambda(self, e):
-        return UNK
+        saved = dict(self.env)
+        a = e.args
+        for p_ in a.posonlyargs + a.args + ([a.vararg] if a.vararg else []) + a.kwonlyargs:
+            self.env[p_.arg] = UNK
+        rt = self.expr(e.body)
+        self.env = saved
+        return ("localfn", rt)
+
+    def e_Yield(self, e):
+        return self.expr(e.value) if e.value is not None else NONE
+
+    def e_YieldFrom(self, e):
+        return self.expr(e.value)
 
     def e_JoinedStr(self, e):
         for v in e.values:
@@ -677,13 +753,16 @@ class Infer:
                     fns = M.lookup(t[1], t[2])
                     if fns:
                         self.note(e, "call", fns)
-                        rts = [OVERRIDE_RET.get(fn.qname, self.t.ann_type(fn.node.returns)) for fn in fns]
+                        rts = [OVERRIDE_RET.get(fn.qname, self.t.ret_type(fn)) for fn in fns]
                         rts = [x for x in rts if x != UNK]
                         return rts[0] if rts else UNK
+                if isinstance(t, tuple) and len(t) == 2 and t[0] == "localfn":
+                    self.note(e, "builtin", "closure")
+                    return t[1]
                 if isinstance(t, tuple) and t and t[0] == "func" and t[1] in M.modfuncs:
                     fn = M.modfuncs[t[1]]
                     self.note(e, "call", [fn])
-                    return OVERRIDE_RET.get(fn.qname, self.t.ann_type(fn.node.returns))
+                    return OVERRIDE_RET.get(fn.qname, self.t.ret_type(fn))
                 if self.t.classes_of(t):
                     r = self.dunder(e, t, "__call__")
                     a0 = argt[0] if argt else UNK
@@ -696,7 +775,7 @@ class Infer:
             if n in M.modfuncs:
                 fn = M.modfuncs[n]
                 self.note(e, "call", [fn])
-                return OVERRIDE_RET.get(fn.qname, self.t.ann_type(fn.node.returns))
+                return OVERRIDE_RET.get(fn.qname, self.t.ret_type(fn))
             a0 = argt[0] if argt else UNK
             if n in EXT_ROOTS and n != "Fraction":
                 self.note(e, "external", n)
@@ -756,7 +835,7 @@ class Infer:
                 fns = M.lookup(c, name)
                 if fns:
                     self.note(e, "call", fns)
-                    rts = [OVERRIDE_RET.get(fn.qname, self.t.ann_type(fn.node.returns)) for fn in fns]
+                    rts = [OVERRIDE_RET.get(fn.qname, self.t.ret_type(fn)) for fn in fns]
                     rts = [t for t in rts if t != UNK]
                     return rts[0] if rts else UNK
             if is_type(ft):   # x.__class__(...)
